@@ -90,7 +90,21 @@ fn render_container(kind: &str, types: &[String]) -> String {
     for (i, t) in types.iter().enumerate() {
         members.push_str(&format!("    {} m{};\n", t, i));
     }
+    // other kinds of member between the state variables: the variables are the members that count, wherever they stand
+    let fillers = [
+        "    event Moved(uint256 amount);\n",
+        "    function touch() public {}\n",
+        "    modifier gated() { _; }\n",
+        "    error Refused(address who);\n",
+        "    enum Phase { A, B }\n",
+    ];
+    let mut mixed = String::from("    using Lib for uint256;\n");
+    for (i, t) in types.iter().enumerate() {
+        mixed.push_str(&format!("    {} m{};\n", t, i));
+        mixed.push_str(fillers[i % fillers.len()]);
+    }
     match kind {
+        "contractmixed" => format!("pragma solidity 0.8.17;\nlibrary Lib {{}}\ncontract Holder {{\n{}}}\n", mixed),
         "contract" => format!("pragma solidity 0.8.17;\n\ncontract Holder {{\n{}}}\n", members),
         "filestruct" => format!("pragma solidity 0.8.17;\n\nstruct Rec {{\n{}}}\n", members),
         _ => format!("pragma solidity 0.8.17;\n\ncontract Outer {{\n  struct Rec {{\n{}  }}\n}}\n", members),
@@ -100,7 +114,7 @@ fn render_container(kind: &str, types: &[String]) -> String {
 /// line on which the container begins in the rendering above
 fn container_line(kind: &str) -> i32 {
     match kind {
-        "contract" | "filestruct" => 3,
+        "contract" | "contractmixed" | "filestruct" => 3,
         _ => 4,
     }
 }
@@ -151,7 +165,7 @@ pub fn replay(behaviours: &str, out: &mut Outcome) {
                 sp[(idx + i * 7) % sp.len()].clone()
             })
             .collect();
-        for (kind, det) in [("contract", pack_storage), ("filestruct", pack_struct), ("innerstruct", pack_struct)] {
+        for (kind, det) in [("contract", pack_storage), ("contractmixed", pack_storage), ("filestruct", pack_struct), ("innerstruct", pack_struct)] {
             let src = render_container(kind, &types);
             check_verdict(out, &src, kind, det, &sizes, &verdict, container_line(kind));
         }
